@@ -297,6 +297,7 @@ def check(prop, tier, replay=None):
 
         # 2. known-finding probes
         exclude = []
+        probe_notes = []
         opens = [f for f in load_findings() if f.get("property") == prop and f.get("status") == "open"]
         probe_files = [os.path.join(ROOT, f["repro"]) for f in opens if f.get("repro")]
         pres = run_replays(binp, probe_files, out_dir)
@@ -316,6 +317,11 @@ def check(prop, tier, replay=None):
             elif st == "ERROR":
                 log("finding probe %s could not be evaluated: %s %s" % (f["id"], sig, detail))
                 rc = 2
+            else:
+                # the recorded reproducer passes: no KNOWN-FINDING line and no exclusion, so the defect - if it is still
+                # there under another input - is reported as a fresh violation by the search
+                log("note: the reproducer of open finding %s no longer fails; its signature is not excluded from the search" % f["id"])
+                probe_notes.append("reproducer of open finding %s passes" % f["id"])
 
         # 3. search tier
         nshards = cfg["shards"][ti]
@@ -367,6 +373,7 @@ def check(prop, tier, replay=None):
         ev["shards"] = nshards
         if fuzz_note:
             ev["notes"].append(fuzz_note)
+        ev["notes"].extend(probe_notes)
         # generator health: required classes
         health = rule_text(prop).get("required_classes", {})
         for cls, floor in health.items():
